@@ -674,6 +674,25 @@ def run_eval(ctx, spec):
     spec(ctx, "core.execwit", wit_lines, classify_eval)
 
 
+def run_bt(ctx, bt_stream):
+    rng = ctx.rng
+    fsets = G.flag_sets(rng, 40, [f for f in EVAL_FLAGS if f not in ("DISCOURAGE_UPGRADABLE_PUBKEYTYPE", "DISCOURAGE_OP_SUCCESS")])
+    lines = []
+    for _ in range(ctx.n(1500, 30000)):
+        sv = rng.choice(["base", "base", "v0"])
+        st = G.init_stack(rng)
+        sc = G.program(rng, False, [G.N if len(x) <= 4 else G.A for x in st], nosig=True)
+        lt, seq, ver = rng.choice([(0, 0xFFFFFFFF, 1), (100, 5, 2), (rng.choice(G.LOCKTIMES), rng.choice(G.SEQUENCES), rng.choice(G.VERSIONS))])
+        lines.append(f"bteval {sv} {rng.choice(fsets)} {hx(sc)} {hexlist(st)} {lt} {seq} {ver}")
+    for sc, st, _label in G.limit_programs(rng):
+        if len(st) <= 1001:
+            lines.append(f"bteval base - {hx(sc)} {hexlist(st)} 0 4294967295 1")
+            lines.append(f"bteval v0 MINIMALDATA {hx(sc)} {hexlist(st)} 0 4294967295 1")
+    for k, (sc, lt, seq, ver) in enumerate(G.locktime_programs(rng)):
+        lines.append(f"bteval {('base', 'v0')[k % 2]} CHECKLOCKTIMEVERIFY,CHECKSEQUENCEVERIFY {hx(sc)} - {lt} {seq} {ver}")
+    bt_stream(ctx, "bt.eval", lines)
+
+
 def run_verify(ctx, spec):
     from . import c08_forms as F
     F.run(ctx, spec)
